@@ -419,6 +419,146 @@ def reenter_history(rng: random.Random):
     return ops
 
 
+# {i0}, {i1}: references to the int variables x, y; {m0}: a reference to the map variable m (key k)
+REBIND_T = ["{i0} + 1", "{i0} >= 7 ? 'big' : 'small'", "[{i0}, {i1}][1]", "{m0}.k", "{{'k': {i0}}}.k + {i1}", "-{i0}", "{i0} < {i1}",
+            "{i0} > 1 && {i1} < 5", "{i0} in [1, 2, 3]", "{i0} * 2 - {i1} % 3", "{i0}", "{m0}.k + {i0}", "[{i0}][0] > 2 || {m0}.k == 1",
+            "{m0}['k'] - {i1}", "!({i0} < {i1})", "[{i0}, {i1}, {m0}.k]", "{{'a': {i0}, 'b': {i1}}}"]
+REBIND_CALL_T = ["size([{i0}]) + {i1}", "[1, 2].map(i, i + {i0})", "[{i0}, {i1}].exists(v, v == 2)", "string({i0}) + 's'", "has({m0}.k)",
+                 "[{i0}].size() == 1"]
+REBIND_CONST = ["1 + 2 * 3", "['a', 'b'][0]", "{'limit': 30}.limit >= 7", "null", "'a' + 'b'"]
+
+
+def rebind_history(rng: random.Random):
+    """One program, many bindings: whatever a runner keeps from one evaluation to the next (a memoised result, a folded
+    sub-expression, a cached activation) must not depend on the earlier bindings.  Whether such a memo applies is typically
+    decided by a syntactic scan of the expression, so the programs of one history refer to their variables in every way the
+    grammar offers, each way also in isolation: only plain identifiers (`x`), only root-scoped ones (`.x`), a mix; mostly
+    operator-only expressions (no function, method or macro — what a scan would call `constant-like`), some with calls, and a
+    really constant one.  Every program is evaluated 3–5 times (2–3 different bindings, repeats) with different bindings (mostly: all variables bound first, so
+    that the first evaluation succeeds; sometimes an erroring evaluation first or in between), then a second program is built
+    from the same tree and evaluated; both runner classes."""
+    k0 = rng.choice("CI")
+    kinds = [k0, "I" if k0 == "C" else "C"] if rng.random() < 0.8 else [k0]
+    ops: List[Any] = [["E", k, None, []] for k in kinds]
+    forms = ["plain", "dotted", "mixed"]
+    rng.shuffle(forms)
+    if rng.random() < 0.5:
+        forms.append("const")
+    np_ = na = 0
+    for fi, form in enumerate(forms):
+        def ref(n):
+            if form == "plain" or (form == "mixed" and rng.random() < 0.5):
+                return n
+            return "." + n
+        if form == "const":
+            expr: Any = {"src": rng.choice(REBIND_CONST)}
+        else:
+            t = rng.choice(REBIND_T) if rng.random() < 0.8 else rng.choice(REBIND_CALL_T)
+            if t == "{i0} + 1" and form != "mixed":       # inside the model's fragment: also compared with the Lean trace
+                expr = ["add", ["id" if form == "plain" else "did", "x"], ["lit", 1]]
+            else:
+                expr = {"src": t.format(i0=ref("x"), i1=ref("y"), m0=ref("m"))}
+        e = fi % len(kinds)
+        ops += [["P", e, expr], ["G", e, na]]
+        first = np_
+        np_ += 1
+        vals = rng.sample([1, 2, 3, 5, 8, 30, -4], 5)
+        bs = [[["x", ["i", vals[j]]], ["y", ["i", vals[(j + 1) % 5]]], ["m", ["m", [["k", vals[(j + 2) % 5]]]]]] for j in range(2 if form == "const" else rng.randint(2, 3))]
+        r = rng.random()
+        if r < 0.15:
+            bs.insert(0, [])                       # an erroring evaluation first
+        elif r < 0.35:
+            bs.insert(rng.randint(1, len(bs)), [["y", ["i", 2]]])   # … or after a successful one
+        for b in bs:
+            ops.append(["V", first, b])
+        ops.append(["V", first, bs[-2] if bs[-2] else bs[-1]])
+        if rng.random() < 0.5:
+            ops += [["G", e, na], ["V", np_, bs[-1]], ["V", first, bs[0] or bs[1]]]
+            np_ += 1
+        na += 1
+    return ops[:40]
+
+
+TWIN_GAPS = [" ", "  ", "\t", " \t", "   "]
+TWIN_LINE_GAPS = ["\n", " \n", "\n  ", "\n\n"]
+TWIN_USE = ["size({lit})", "{lit} == s", "{lit} + s", "{lit}.contains(sep)", "[{lit}, s][0]", "{{{lit}: 1}}[s]", "s.startsWith({lit})"]
+
+
+def twin_texts(rng: random.Random):
+    """two DIFFERENT expression texts that a plausible normalisation of the source text (folding or stripping white space,
+    dropping comments, folding case) maps to the same key, although they mean different things; with bindings that tell
+    them apart"""
+    r = rng.random()
+    if r < 0.6:                                     # white space inside a string / bytes literal is content
+        q = rng.choice(["'", '"', "'''", '"""'])
+        gaps = TWIN_GAPS + (TWIN_LINE_GAPS if len(q) == 3 else [])
+        g1, g2 = rng.sample(gaps, 2)
+        if len(q) == 3 and rng.random() < 0.6 and not (set(g1 + g2) & set("\n")):
+            g2 = rng.choice(TWIN_LINE_GAPS)
+        w1, w2 = rng.choice([("a", "b"), ("J.", "Smith"), ("k", "v"), ("x", "y z")])
+        use = rng.choice(TWIN_USE)
+        pre = "b" if use == "size({lit})" and rng.random() < 0.25 else ""
+        a, b = (use.format(lit=f"{pre}{q}{w1}{g}{w2}{q}") for g in (g1, g2))
+        binds = [[["s", ["s", w1 + g + w2]], ["sep", ["s", g]]] for g in (g1, g2)]
+    elif r < 0.75:                                  # a comment ends with its line
+        c = rng.choice(["note", "the count", "x"])
+        a, b = f"n // {c}\n + 1", f"n // {c} + 1"
+        if rng.random() < 0.5:
+            a, b = f"[n, // {c}\n 2].size()", f"[n // {c} 2\n ].size()"
+        binds = [[["n", ["i", 10]]]] * 2
+    elif r < 0.9:                                   # leading / trailing blanks of a literal
+        w = rng.choice(["a", "ab"])
+        use = rng.choice(TWIN_USE[:3])
+        a, b = use.format(lit=f"'{w} '"), use.format(lit=f"'{w}'")
+        binds = [[["s", ["s", w + " "]]], [["s", ["s", w]]]]
+    else:                                           # letter case
+        use = rng.choice(TWIN_USE[:3])
+        a, b = use.format(lit="'Ab'"), use.format(lit="'ab'")
+        binds = [[["s", ["s", "Ab"]]], [["s", ["s", "ab"]]]]
+    if rng.random() < 0.5:
+        a, b, binds = b, a, binds[::-1]
+    return a, b, binds
+
+
+def twin_history(rng: random.Random):
+    """Which programs were created earlier: near-twin expression texts (see twin_texts) are compiled one after the other in
+    the same process — same environment, two environments of the same runner class, or of different classes —, every
+    program is evaluated with the bindings that tell the twins apart, the earlier programs again at the end.  Whatever is
+    memoised per source text (parse trees, transpiled code) under a key that identifies too much makes the later program
+    evaluate the earlier expression."""
+    k0 = rng.choice("CI")
+    kinds = [k0, k0 if rng.random() < 0.75 else ("I" if k0 == "C" else "C")]
+    if rng.random() < 0.3:
+        kinds.append(k0)
+    ops: List[Any] = [["E", kinds[0], None, []]]
+    lazy = rng.random() < 0.5
+    if not lazy:
+        ops += [["E", k, None, []] for k in kinds[1:]]
+    nenv = 1 if lazy else len(kinds)
+    n = 0
+    evs = []
+    for _ in range(2):
+        a, b, binds = twin_texts(rng)
+        for text, e in ((a, rng.randrange(nenv)), (b, None)):
+            if e is None:
+                if lazy and nenv < len(kinds) and rng.random() < 0.6:
+                    ops.append(["E", kinds[nenv], None, []])
+                    nenv += 1
+                    e = nenv - 1
+                else:
+                    e = rng.randrange(nenv)
+                    if kinds[e] != k0 and rng.random() < 0.7:
+                        e = 0
+            ops += [["P", e, {"src": text}], ["G", e, n]]
+            for bd in (binds if rng.random() < 0.5 else binds[::-1]):
+                ops.append(["V", n, bd])
+                evs.append((n, bd))
+            n += 1
+    for p, bd in rng.sample(evs, min(3, len(evs))):
+        ops.append(["V", p, bd])
+    return ops[:40]
+
+
 def has_reenter(ops) -> bool:
     return any(o[0] == "G" and len(o) > 3 and o[3] and any(f[1] == "reenter" for f in o[3]["fns"]) for o in ops)
 
@@ -446,6 +586,10 @@ def gen_cases(rng: random.Random, families: int, per_family: int):
         cases.append({"kind": "hist", "ops": probe_history(rng, fam, False)})
         for _ in range(per_family):
             cases.append({"kind": "hist", "ops": gen_history(rng, fam, 40 if rng.random() < 0.6 else 18)})
+    # (round 4; generated last so that the histories above are those of the earlier rounds for the same seed)
+    for _ in range(max(2, families * 2 // 3)):
+        cases.append({"kind": "hist", "ops": rebind_history(rng)})
+        cases.append({"kind": "hist", "ops": twin_history(rng)})
     return cases
 
 
